@@ -50,6 +50,7 @@ Print Assumptions C08_encoded_size.
 
 Theorem C08_limit_is_spec_limit : MV = max_row_size.
 Proof. exact MV_is_max_row_size. Qed.
+Print Assumptions C08_limit_is_spec_limit.
 
 Theorem C08_size_test_agrees : forall sch r bs,
   NoDup (names sch) -> row_fits sch r = true ->
